@@ -1,15 +1,23 @@
 """C11 - intercepted flows are held until resumed, killed flows are never forwarded.
 
-Decided (structural clauses):
-  R11.1 the hook machinery blocks: ProxyConnectionHandler.handle_hook awaits flow.wait_for_resume() after the
-        addons ran, and ConnectionHandler.hook_task reports HookCompleted only after handle_hook returned.
-  R11.2 in every layer the message is sent after its hook, exactly once, and the payload is re-read from the
-        flow/message object after the hook (so edits are forwarded), never the pre-hook local.
+Decided (all clauses on path *semantics*: functions are executed abstractly with structural values - where a datum came from and
+whether it was read before or after the hook - and helpers are inlined by value, so local names, statement shape and extraction
+do not matter; see "value-based path semantics" below):
+  R11.1 the hook machinery blocks: on every path of ProxyConnectionHandler.handle_hook on which the hook's data is a Flow,
+        <data>.wait_for_resume() is awaited after the addons ran; ConnectionHandler.hook_task hands a HookCompleted event to the
+        layer only after handle_hook was awaited; Flow.wait_for_resume(), while `intercepted`, awaits the flow's resume event on
+        every returning path.
+  R11.2 in every layer the message is sent after its hook (TCP/UDP: exactly once), and the payload is read from the flow / from a
+        message object that was handed to the flow, *after* the hook (so edits are forwarded) - never data as received (event,
+        parameter, an object the hook never saw) and never a snapshot taken before the hook.
   R11.3 HTTP: between a message hook and the kill check nothing of the message is sent to its destination and
         no upstream connection is requested (explored on the extracted HttpStream model); the killed path of
         check_killed only tells the client and marks both directions errored.
-  R11.4 every layer that fires a message hook consults the kill marker (flow.error / flow.live / killable)
-        between hook and send.   (TCP, UDP, WebSocket, DNS responses do not: upstream limitation, known findings.)
+  R11.4 every layer that fires a message hook reads the kill marker (<flow>.error / .live / .killable, after the hook, in a branch
+        condition or in the result of an inlined helper) between hook and send.
+        (TCP, UDP, WebSocket, DNS responses do not: upstream limitation, known findings.)
+  R11.5 with a waiter present, Flow.resume() sets the very event wait_for_resume() blocks on (on every path), and Flow.kill() sets it
+        on no path while some layer forwards unconditionally after its hook (cooperating sites).
 Not decided: scheduling of other flows on the same connection (asyncio), real intercept/resume timing.
 """
 
@@ -17,21 +25,21 @@ from __future__ import annotations
 
 import ast
 
-from ..core import norm
+from ..core import AnalysisError
 from ..httpstream import HttpStreamSpec
 from ..httpstream import init_env
 from ..httpstream import REL
 from ..layerx import explore
-from ..model import calls_in
-from ..model import call_name
 from ..model import attr_chain
+from ..model import eval_order
 from ..model import last_attr
-from ..model import walk_in_order
 from ..paths import C
+from ..paths import class_names
 from ..paths import Engine
-from ..paths import GenericSpec
+from ..paths import Spec
 from ..paths import State
 from ..paths import traces_of
+from ..paths import UNKNOWN
 from ..selftest import Mutant
 from .C03 import Lifecycle
 
@@ -76,8 +84,510 @@ class KillOrder(Lifecycle):
         return out
 
 
-def _payload_names(expr):
-    return [n for n in ast.walk(expr) if isinstance(n, ast.Name)]
+# ---------------------------------------------------------------------------------------------------
+# value-based path semantics (shared by R11.1, R11.2, R11.4, R11.5)
+#
+# The rules below never compare source text or local names.  Every function is executed abstractly by the path engine with
+# *structural values*: a value says where a datum came from (which parameter / attribute read / constructor / call) and - for
+# attribute reads - whether the read happened before or after the message hook of the layer.  Helper methods (`self.f()`,
+# `Class.f()`, `cls.f()`, module-level `f()`), also static ones, are inlined with their arguments bound by value, so a rule sees the
+# same events whether a step is written in place or extracted, and whatever the locals are called.
+#
+#   C(k)                          constant                     ("self",)            the instance
+#   ("param", n)                  entry value of parameter n   ("glob", n)          module-level name
+#   ("attr", base, name, epoch)   attribute read; epoch = None for direct attributes of self (stable references), otherwise
+#                                 False / True = read before / after the layer's message hook fired on this path
+#   ("new", Cls, site, args, kw)  object constructed here      ("call", f, args, kw) result of any other call
+#   ("idx", base, i) ("elem", it) subscript / element of an iterable (loop variable, unpacking)
+#   ("bool", ...)                 comparison / isinstance / not: carries no payload, only the reads it made
+#   ("op", ...) ("tuple", ...)    anything else: derived from its operands
+#   ("nn", tag)                   an opaque non-None object handed in by a rule (scenario value)
+#   ("ext",)                      result of a yield / await (reply of the environment)
+
+KILL_ATTRS = ("error", "live", "killable")
+_BOOL_CALLS = ("isinstance", "callable", "bool", "hasattr", "issubclass")
+
+
+def _is_classname(name: str) -> bool:
+    n = name.lstrip("_")
+    return bool(n) and n[0].isupper() and not n.isupper()
+
+
+def _loop_binding(node, name):
+    """innermost enclosing `for` statement (of the same function) whose target binds ``name`` and whose body contains ``node``"""
+    child, n = node, getattr(node, "_parent", None)
+    while n is not None and not isinstance(n, (ast.FunctionDef, ast.AsyncFunctionDef, ast.Lambda)):
+        if isinstance(n, (ast.For, ast.AsyncFor)) and any(child is b for b in n.body):
+            if any(isinstance(x, ast.Name) and x.id == name for x in ast.walk(n.target)):
+                return n
+        child, n = n, getattr(n, "_parent", None)
+    return None
+
+
+_WALRUS = {}
+
+
+def _walrus_binding(node, name):
+    """the only `(name := value)` of the enclosing function, if the function binds ``name`` in no other way"""
+    fn = getattr(node, "_parent", None)
+    while fn is not None and not isinstance(fn, (ast.FunctionDef, ast.AsyncFunctionDef)):
+        fn = getattr(fn, "_parent", None)
+    if fn is None:
+        return None
+    tab = _WALRUS.get(id(fn))
+    if tab is None or tab[0] is not fn:
+        found, stores = {}, {}
+        for n in ast.walk(fn):
+            if isinstance(n, ast.NamedExpr):
+                found.setdefault(n.target.id, []).append(n)
+            elif isinstance(n, ast.Name) and isinstance(n.ctx, (ast.Store, ast.Del)):
+                stores[n.id] = stores.get(n.id, 0) + 1
+            elif isinstance(n, ast.arg):
+                stores[n.arg] = stores.get(n.arg, 0) + 2
+        # ast.walk yields the walrus target as a Store Name too: exactly one store = the walrus itself
+        tab = (fn, {k: v[0] for k, v in found.items() if len(v) == 1 and stores.get(k, 0) == 1})
+        _WALRUS[id(fn)] = tab
+    return tab[1].get(name)
+
+
+def subvalues(v):
+    """every structural value nested in ``v`` (including v)"""
+    todo = [v]
+    while todo:
+        x = todo.pop()
+        if not isinstance(x, tuple) or not x:
+            continue
+        if isinstance(x[0], str):
+            yield x
+        for y in x[1:] if isinstance(x[0], str) else x:
+            if isinstance(y, tuple):
+                todo.append(y)
+
+
+class VSpec(Spec):
+    """Path-engine specialisation with structural values (see above)."""
+
+    unroll = 1
+    max_depth = 4
+    record_conds = False
+
+    def __init__(self, model, rel, cls, entry, tracked=(), no_inline=(), may_inline=None):
+        self.m, self.rel, self.cls, self.entry = model, rel, cls, entry
+        self.tracked = tuple(tracked)
+        self.no_inline = set(no_inline)
+        self._may_inline = may_inline
+        self._fdepth = {id(entry): 0}  # function -> frame depth of its (only) active activation
+        self._stack = {0: id(entry)}
+        self._last = 0
+        self._busy = set()
+        a = entry.args
+        self.params0 = {x.arg for x in a.posonlyargs + a.args + a.kwonlyargs} | ({a.vararg.arg} if a.vararg else set()) | ({a.kwarg.arg} if a.kwarg else set())
+        try:
+            self._class_names = {c.name for _, c in model.mro(rel, cls)} if cls else set()
+        except AnalysisError:
+            self._class_names = {cls}
+
+    # ---- frames
+    def depth_of(self, node) -> int:
+        n = node
+        while n is not None:
+            if isinstance(n, (ast.FunctionDef, ast.AsyncFunctionDef)) and id(n) in self._fdepth:
+                return self._fdepth[id(n)]
+            n = getattr(n, "_parent", None)
+        return self._last  # synthesised node (match pattern rewritten as a condition): evaluated in the frame used last
+
+    def hooked(self, st) -> bool:
+        return st.get("$hk") == C(True)
+
+    # ---- values
+    def value(self, expr, st, depth):
+        self._last = depth
+        V = lambda e: self.value(e, st, depth)  # noqa: E731
+        if expr is None:
+            return C(None)
+        if isinstance(expr, ast.Constant):
+            return C(expr.value)
+        if isinstance(expr, ast.Starred):
+            return ("elem", V(expr.value))
+        if Spec._bool_typed(expr) and not isinstance(expr, ast.Constant):
+            t = self.truth(expr, st, depth)  # decided by the scenario (e.g. `is_flow = isinstance(data, Flow)`): a constant
+            if t is not None:
+                return C(t)
+        if isinstance(expr, ast.Name):
+            k = f"{depth}:{expr.id}"
+            v = st.get(k, None)
+            if v is not None and v != UNKNOWN:
+                return v
+            loop = _loop_binding(expr, expr.id)
+            if loop is not None:
+                return ("elem", V(loop.iter))
+            if v is not None:
+                return UNKNOWN
+            ne = _walrus_binding(expr, expr.id)
+            if ne is not None and id(ne) not in self._busy:
+                # `(x := e)` nested inside a condition is not bound by the engine: a single-assignment temporary, evaluated where it is used
+                self._busy.add(id(ne))
+                try:
+                    return V(ne.value)
+                finally:
+                    self._busy.discard(id(ne))
+            if expr.id in ("self", "cls"):
+                return ("self",)
+            if depth == 0 and expr.id in self.params0:
+                return ("param", expr.id)
+            return ("glob", expr.id)
+        if isinstance(expr, ast.Attribute):
+            ch = attr_chain(expr)
+            if ch and ch in self.tracked and st.has(ch):
+                return st.get(ch)
+            base = V(expr.value)
+            return ("attr", base, expr.attr, None if base == ("self",) else self.hooked(st))
+        if isinstance(expr, ast.Call):
+            args = tuple(V(a) for a in expr.args)
+            kws = tuple((k.arg or "**", V(k.value)) for k in expr.keywords)
+            name = last_attr(expr.func)
+            if isinstance(expr.func, ast.Name) and name in _BOOL_CALLS:
+                return ("bool",) + args
+            if _is_classname(name):
+                return ("new", name, (expr.lineno, expr.col_offset), args, kws)
+            return ("call", V(expr.func), args, kws)
+        if isinstance(expr, ast.Compare):
+            return ("bool", V(expr.left)) + tuple(V(c) for c in expr.comparators)
+        if isinstance(expr, ast.UnaryOp) and isinstance(expr.op, ast.Not):
+            return ("bool", V(expr.operand))
+        if isinstance(expr, ast.BoolOp):
+            vals = tuple(V(x) for x in expr.values)
+            return (("bool",) if all(Spec._bool_typed(x) for x in expr.values) else ("op",)) + vals
+        if isinstance(expr, ast.IfExp):
+            return ("op", ("bool", V(expr.test)), V(expr.body), V(expr.orelse))
+        if isinstance(expr, ast.Subscript):
+            return ("idx", V(expr.value), V(expr.slice))
+        if isinstance(expr, ast.NamedExpr):
+            return V(expr.value)
+        if isinstance(expr, (ast.Yield, ast.YieldFrom, ast.Await, ast.Lambda)):
+            return ("ext",)
+        if isinstance(expr, (ast.Tuple, ast.List, ast.Set)):
+            return ("tuple",) + tuple(V(e.value if isinstance(e, ast.Starred) else e) for e in expr.elts)
+        if isinstance(expr, (ast.ListComp, ast.SetComp, ast.GeneratorExp)):
+            return ("op", V(expr.elt)) + tuple(V(g.iter) for g in expr.generators)
+        if isinstance(expr, ast.DictComp):
+            return ("op", V(expr.key), V(expr.value)) + tuple(V(g.iter) for g in expr.generators)
+        return ("op",) + tuple(V(c) for c in ast.iter_child_nodes(expr) if isinstance(c, ast.expr))
+
+    # ---- effects
+    def bind(self, target, value_expr, st, depth, value=None):
+        self._last = depth
+        v = value if value is not None else self.value(value_expr, st, depth)
+        if isinstance(target, ast.Starred):
+            target = target.value
+        if isinstance(target, ast.Name):
+            return st.set(f"{depth}:{target.id}", v)
+        if isinstance(target, (ast.Tuple, ast.List)):
+            exact = isinstance(v, tuple) and v and v[0] == "tuple" and len(v) - 1 == len(target.elts) and not any(isinstance(e, ast.Starred) for e in target.elts)
+            for i, e in enumerate(target.elts):
+                st = self.bind(e, None, st, depth, value=v[1 + i] if exact else (UNKNOWN if v == UNKNOWN else ("elem", v)))
+            return st
+        ch = attr_chain(target)
+        if ch and ch in self.tracked:
+            return st.set(ch, v)
+        return st
+
+    def effect(self, stmt, st, depth):
+        self._last = depth
+        if isinstance(stmt, ast.AugAssign) and isinstance(stmt.target, ast.Name):
+            st = st.set(f"{depth}:{stmt.target.id}", ("op", self.value(stmt.target, st, depth), self.value(stmt.value, st, depth)))
+        else:
+            st = Spec.effect(self, stmt, st, depth)
+        return self.after(stmt, st, depth)
+
+    def after(self, stmt, st, depth):
+        return st
+
+    # ---- decisions on scenario values
+    def decide_extra(self, cond, st, depth):
+        if isinstance(cond, (ast.Name, ast.Attribute)):
+            v = self.value(cond, st, depth)
+            if v[0] == "nn":
+                return True
+        if isinstance(cond, ast.Compare) and len(cond.ops) == 1 and isinstance(cond.ops[0], (ast.Is, ast.IsNot, ast.Eq, ast.NotEq)):
+            a, b = self.value(cond.left, st, depth), self.value(cond.comparators[0], st, depth)
+            if (a[0] == "nn" and b == C(None)) or (b[0] == "nn" and a == C(None)):
+                return isinstance(cond.ops[0], (ast.IsNot, ast.NotEq))
+        return None
+
+    # ---- inlining by resolution through the model (value-bound arguments)
+    def resolve(self, call):
+        f = call.func
+        if isinstance(f, ast.Attribute) and isinstance(f.value, ast.Name) and self.cls:
+            if f.value.id in ("self", "cls") or f.value.id in self._class_names:
+                r = self.m.method(self.rel, self.cls, f.attr)
+                return r[1] if r else None
+        if isinstance(f, ast.Name):
+            d = self.m.module(self.rel).get(f.id)
+            if isinstance(d, (ast.FunctionDef, ast.AsyncFunctionDef)):
+                return d
+        return None
+
+    def inline(self, call, st, depth):
+        self._last = depth
+        fn = self.resolve(call)
+        if fn is None or fn.name in self.no_inline or depth + 1 > self.max_depth:
+            return None
+        if any(self._stack.get(i) == id(fn) for i in range(depth + 1)):
+            return None  # recursion: the call stays opaque
+        if self._may_inline is not None and not self._may_inline(fn):
+            return None
+        self._fdepth[id(fn)] = depth + 1
+        self._stack[depth + 1] = id(fn)
+        return fn
+
+
+def returning(traces):
+    return [t for t, how, s in traces if how == "return"]
+
+
+# ---- R11.1: the hook machinery --------------------------------------------------------------------
+
+
+class HookHandlerSpec(VSpec):
+    """handle_hook: ('addons',) when the addons are awaited, ('wait', on_hook_data) when <x>.wait_for_resume() is awaited,
+    ('waitx',) for a wait_for_resume call that is not awaited directly.  `isinstance(<hook data>, ...Flow)` is decided by the scenario."""
+
+    def __init__(self, *a, data_is_flow=True, **kw):
+        VSpec.__init__(self, *a, **kw)
+        self.data_is_flow = data_is_flow
+        ps = [x.arg for x in self.entry.args.posonlyargs + self.entry.args.args if x.arg not in ("self", "cls")]
+        self.hook_param = ps[0] if ps else None
+
+    def is_hook_data(self, v) -> bool:
+        """taken out of `<hook parameter>.args()`: an element / item of it, next(iter(..)), ..."""
+        return any(c[0] == "call" and c[1][0] == "attr" and c[1][1] == ("param", self.hook_param) and c[1][2] == "args" for c in subvalues(v))
+
+    def events(self, node, st):
+        depth = self.depth_of(node)
+        out = []
+        for n in eval_order(node):
+            if isinstance(n, ast.Await) and isinstance(n.value, ast.Call):
+                f = n.value.func
+                if last_attr(f) == "handle_lifecycle":
+                    out.append(("addons",))
+                elif isinstance(f, ast.Attribute) and f.attr == "wait_for_resume":
+                    out.append(("wait", self.is_hook_data(self.value(f.value, st, depth))))
+            elif isinstance(n, ast.Call) and isinstance(n.func, ast.Attribute) and n.func.attr == "wait_for_resume" and not isinstance(getattr(n, "_parent", None), ast.Await):
+                out.append(("waitx",))
+        return out
+
+    def decide_extra(self, cond, st, depth):
+        if isinstance(cond, ast.Call) and isinstance(cond.func, ast.Name) and cond.func.id == "isinstance" and len(cond.args) == 2:
+            if self.is_hook_data(self.value(cond.args[0], st, depth)):
+                names = class_names(cond.args[1])
+                if "Flow" in names:
+                    return True if self.data_is_flow else (False if names == ["Flow"] else None)
+        return VSpec.decide_extra(self, cond, st, depth)
+
+
+class HookTaskSpec(VSpec):
+    """hook_task: ('hh',) when handle_hook is awaited, ('done',) when a HookCompleted object is handed to some call (delivered to the layer)."""
+
+    def events(self, node, st):
+        depth = self.depth_of(node)
+        out = []
+        for n in eval_order(node):
+            if isinstance(n, ast.Await) and isinstance(n.value, ast.Call) and last_attr(n.value.func) == "handle_hook":
+                out.append(("hh",))
+            elif isinstance(n, ast.Call) and not _is_classname(last_attr(n.func)):
+                vals = [self.value(a, st, depth) for a in n.args] + [self.value(k.value, st, depth) for k in n.keywords]
+                if any(x[0] == "new" and x[1] == "HookCompleted" for v in vals for x in subvalues(v)):
+                    out.append(("done",))
+        return out
+
+
+class ResumeEventSpec(VSpec):
+    """Flow.wait_for_resume / resume / kill: ('evwait', receiver) for `await <receiver>.wait()`, ('evset', receiver) for `<receiver>.set()`."""
+
+    def events(self, node, st):
+        depth = self.depth_of(node)
+        out = []
+        for n in eval_order(node):
+            if isinstance(n, ast.Await) and isinstance(n.value, ast.Call) and isinstance(n.value.func, ast.Attribute) and n.value.func.attr == "wait" and not n.value.args:
+                out.append(("evwait", self.value(n.value.func.value, st, depth)))
+            elif isinstance(n, ast.Call) and isinstance(n.func, ast.Attribute) and n.func.attr == "set" and not n.args:
+                out.append(("evset", self.value(n.func.value, st, depth)))
+        if isinstance(node, (ast.Assign, ast.AnnAssign)) and node.value is not None:
+            for t in node.targets if isinstance(node, ast.Assign) else [node.target]:
+                if isinstance(t, ast.Attribute) and isinstance(t.value, ast.Name) and t.value.id == "self":
+                    out.append(("store", t.attr, self.value(node.value, st, depth)))
+        return out
+
+
+# ---- R11.2 / R11.4: message layers ------------------------------------------------------------------
+
+
+class MessageLayerSpec(VSpec):
+    """Events of one message layer:
+      ('hook', Hook, flow value)   the layer's message hook is yielded (from here on attribute reads have epoch True)
+      ('send', line, payload)      a SendData command is yielded (directly, through a temporary, or built by a sender method such as send2)
+      ('att', callee, args)        a locally constructed object is handed to a call / stored into an attribute (it may become reachable from the flow)
+      ('kread', attr)              after the hook, a branch condition (or the return value of an inlined helper) read <flow>.error / .live / .killable
+    """
+
+    def __init__(self, model, rel, cls, entry, hook):
+        VSpec.__init__(self, model, rel, cls, entry, may_inline=self._same_stage)
+        self.hook = hook
+        # sender methods: non-generator methods of this module that build a SendData command from their arguments and return it (send2)
+        self.senders = set()
+        for q, d in model.module(rel).defs().items():
+            if isinstance(d, ast.FunctionDef) and "." in q:
+                nodes = list(ast.walk(d))
+                if any(isinstance(n, ast.Call) and last_attr(n.func) == "SendData" for n in nodes) and not any(isinstance(n, (ast.Yield, ast.YieldFrom)) for n in nodes) \
+                        and any(isinstance(n, ast.Return) and n.value is not None for n in nodes):
+                    self.senders.add(d.name)
+        self._stage_cache = {}
+
+    def _same_stage(self, fn, seen=None) -> bool:
+        """a helper belongs to this hook's stage unless it (transitively) fires a different hook (= another stage with its own obligations)"""
+        if id(fn) in self._stage_cache:
+            return self._stage_cache[id(fn)]
+        seen = seen or set()
+        seen.add(id(fn))
+        ok = True
+        for n in ast.walk(fn):
+            if isinstance(n, ast.Yield) and isinstance(n.value, ast.Call):
+                nm = last_attr(n.value.func)
+                if nm.endswith("Hook") and nm != self.hook:
+                    ok = False
+            elif isinstance(n, ast.Call):
+                g = self.resolve(n)
+                if g is not None and id(g) not in seen and not self._same_stage(g, seen):
+                    ok = False
+        self._stage_cache[id(fn)] = ok
+        return ok
+
+    def send_payload(self, v):
+        if v[0] == "new" and v[1] == "SendData":
+            kw = dict(v[4])
+            if "data" in kw:
+                return kw["data"]
+            return v[3][-1] if v[3] else None
+        if v[0] == "call" and v[1][0] == "attr" and v[1][2] in self.senders:
+            return ("tuple",) + v[2] + tuple(x for _, x in v[3])
+        return None
+
+    def events(self, node, st):
+        depth = self.depth_of(node)
+        out = []
+        for n in eval_order(node):
+            if isinstance(n, ast.Yield) and n.value is not None:
+                v = self.value(n.value, st, depth)
+                if v[0] == "new" and v[1] == self.hook:
+                    arg = v[3][0] if v[3] else (v[4][0][1] if v[4] else UNKNOWN)
+                    out.append(("hook", self.hook, arg))
+                else:
+                    p = self.send_payload(v)
+                    if p is not None:
+                        out.append(("send", n.lineno, p))
+            elif isinstance(n, ast.Call) and not _is_classname(last_attr(n.func)) and (n.args or n.keywords):
+                args = tuple(self.value(a.value if isinstance(a, ast.Starred) else a, st, depth) for a in n.args) + tuple(self.value(k.value, st, depth) for k in n.keywords)
+                if any(x[0] == "new" for a in args for x in subvalues(a)):
+                    out.append(("att", self.value(n.func, st, depth), args))
+        if isinstance(node, (ast.Assign, ast.AnnAssign, ast.AugAssign)) and node.value is not None:
+            tg = node.targets if isinstance(node, ast.Assign) else [node.target]
+            stores = [t for t in tg if isinstance(t, (ast.Attribute, ast.Subscript))]
+            if stores:
+                v = self.value(node.value, st, depth)
+                if any(x[0] == "new" for x in subvalues(v)):
+                    for t in stores:
+                        out.append(("att", self.value(t if isinstance(node, ast.AugAssign) else t.value, st, depth), (v,)))
+        if self.hooked(st) and (isinstance(node, ast.expr) or (isinstance(node, ast.Return) and depth > 0 and node.value is not None)):
+            F = st.get("$F")
+            v = self.value(node if isinstance(node, ast.expr) else node.value, st, depth)
+            for x in subvalues(v):
+                if x[0] == "attr" and x[2] in KILL_ATTRS and x[3] is True and x[1] == F:
+                    out.append(("kread", x[2]))
+        return out
+
+    def after(self, stmt, st, depth):
+        for n in ast.walk(stmt):
+            if isinstance(n, ast.Yield) and n.value is not None:
+                v = self.value(n.value, st, depth)
+                if v[0] == "new" and v[1] == self.hook:
+                    arg = v[3][0] if v[3] else (v[4][0][1] if v[4] else UNKNOWN)
+                    st = st.set("$hk", C(True)).set("$F", arg)
+        return st
+
+
+def rooted_at(v, F) -> bool:
+    """is ``v`` the flow object F or something reached from it (attribute, item, element, result of a method called on it)?"""
+    while True:
+        if v == F:
+            return True
+        if v[0] in ("attr", "idx", "elem"):
+            v = v[1]
+        elif v[0] == "call":
+            v = v[1]
+        else:
+            return False
+
+
+def attached_objects(trace, F) -> set:
+    """construction sites of the local objects that were handed to the flow (appended to / stored in something reached from F, or passed to
+    a call together with F): the objects a hook can see and edit"""
+    out = set()
+    for e in trace:
+        if e[0] != "att":
+            continue
+        _, callee, args = e
+        if rooted_at(callee, F) or any(rooted_at(a, F) for a in args if a[0] != "new"):
+            for a in args:
+                for x in subvalues(a):
+                    if x[0] == "new":
+                        out.add(x[2])
+    return out
+
+
+def provenance(v, F, attached) -> set:
+    """{'post','pre','raw'}: read from the flow / an attached message object after the hook; read (from the flow, a message object or the
+    layer's own state) before the hook; derived from data as received (a parameter, the event, an object the hook never saw)."""
+
+    def mutable(b):
+        if rooted_at(b, F):
+            return True
+        while b[0] in ("idx", "elem", "attr"):
+            b = b[1]
+        return b[0] == "new" and b[2] in attached
+
+    def tags(x):
+        if not isinstance(x, tuple) or not x or not isinstance(x[0], str):
+            return set()
+        k = x[0]
+        if x == F:
+            return {"post"}
+        if k == "param":
+            return {"raw"}
+        if k == "attr":
+            if mutable(x[1]):
+                return {"post"} if x[3] else {"pre"}
+            # state of the layer / a connection wrapper: a snapshot taken before the hook is pre-hook data (e.g. the buffered frames)
+            return tags(x[1]) | ({"pre"} if x[3] is False else set())
+        if k == "new":
+            if x[2] in attached:
+                return {"post"}
+            return set().union(*[tags(a) for a in x[3]], *[tags(a) for _, a in x[4]]) if (x[3] or x[4]) else set()
+        if k == "call":
+            out = set() if x[1][0] == "new" else tags(x[1])  # calling a local helper object: the result is derived from the arguments
+            for a in x[2]:
+                out |= tags(a)
+            for _, a in x[3]:
+                out |= tags(a)
+            return out
+        if k in ("bool", "c", "glob", "self", "ext", "nn", "u"):
+            return set()
+        out = set()
+        for a in x[1:]:
+            out |= tags(a)
+        return out
+
+    return tags(v)
 
 
 def check(ctx):
@@ -87,43 +597,55 @@ def check(ctx):
     ctx.rule("R11.2", "message sent after its hook, once, payload re-read from the flow/message object")
     ctx.rule("R11.3", "HTTP: nothing reaches the destination between a message hook and check_killed; killed path shape")
     ctx.rule("R11.4", "every layer with a message hook consults the kill marker between hook and send")
-    ctx.rule("R11.5", "Flow.kill never completes a pending hook while some layer forwards unconditionally after its hook (cooperating sites)")
+    ctx.rule("R11.5", "Flow.resume sets the event a held hook waits on; Flow.kill never completes a pending hook while some layer forwards unconditionally after its hook (cooperating sites)")
     unchecked_layers = []
     m = ctx.model
 
     # ---- R11.1
-    hh = ctx.func(MS, "ProxyConnectionHandler.handle_hook")
-    tr, _ = traces_of(hh, GenericSpec(keep=lambda e: e[0] == "await", record_conds=False))
-    ok = all(
-        ("await", "self.master.addons.handle_lifecycle") in t and (
-            ("await", "data.wait_for_resume") not in t or t.index(("await", "self.master.addons.handle_lifecycle")) < t.index(("await", "data.wait_for_resume"))
-        )
-        for t, how, s in tr
-    ) and any(("await", "data.wait_for_resume") in t for t, how, s in tr)
-    ctx.check(ok, "R11.1", (MS, "ProxyConnectionHandler.handle_hook", hh), "await addons; await data.wait_for_resume()", "hook completion no longer waits for the flow to be resumed",
+    HHQ = "ProxyConnectionHandler.handle_hook"
+    hh = ctx.func(MS, HHQ)
+    spec = HookHandlerSpec(m, MS, "ProxyConnectionHandler", hh, data_is_flow=True)
+    tr, _ = traces_of(hh, spec)
+    ctx.paths += len(tr)
+    paths = returning(tr)
+    ctx.require(not any(("waitx",) in t for t, _, _ in tr), "handle_hook: wait_for_resume() is called but not awaited directly (shape not modelled)")
+    ctx.require(any(("addons",) in t for t in paths), "handle_hook: no path awaits addons.handle_lifecycle (anchor moved)")
+
+    def held(t):
+        """the flow's wait_for_resume() is awaited after the (last) run of the addons"""
+        last = max(i for i, e in enumerate(t) if e == ("addons",))
+        return ("wait", True) in t[last + 1 :]
+
+    with_addons = [t for t in paths if ("addons",) in t]
+    ctx.check(any(held(t) for t in with_addons), "R11.1", (MS, HHQ, hh), "await addons; await data.wait_for_resume()", "hook completion no longer waits for the flow to be resumed",
               desc="handle_hook awaits wait_for_resume after the addons")
-    # wait_for_resume must be guarded only by isinstance(data, Flow)
-    waits = [n for n in walk_in_order(hh) if isinstance(n, ast.Await) and isinstance(n.value, ast.Call) and attr_chain(n.value.func).endswith("wait_for_resume")]
-    ctx.require(len(waits) <= 1, "handle_hook: more than one wait_for_resume await (shape not modelled)")
-    conds = []
-    p = waits[0]._parent if waits else hh
-    while p is not hh:
-        if isinstance(p, ast.If):
-            conds.append(norm(p.test))
-        p = p._parent
-    ctx.check(bool(waits) and all("isinstance" in c and "Flow" in c for c in conds), "R11.1", (MS, "ProxyConnectionHandler.handle_hook", hh), f"wait_for_resume guarded by {conds}",
-              "waiting for resume is skipped under an extra condition", desc="wait guarded only by the Flow type test")
+    ctx.check(all(held(t) for t in with_addons), "R11.1", (MS, HHQ, hh), "wait_for_resume on every path of a Flow hook",
+              "waiting for resume is skipped under an extra condition: some path on which the hook data is a Flow completes the hook without awaiting data.wait_for_resume() after the addons ran",
+              desc="wait guarded only by the Flow type test")
     ht = ctx.func(SRV, "ConnectionHandler.hook_task")
-    tr, _ = traces_of(ht, GenericSpec(keep=lambda e: e[0] == "await" or (e[0] == "call" and e[1].endswith("HookCompleted"))))
-    ok = all((("call", "events.HookCompleted") not in t) or (("await", "self.handle_hook") in t and t.index(("await", "self.handle_hook")) < t.index(("call", "events.HookCompleted"))) for t, how, s in tr)
-    ok = ok and any(("call", "events.HookCompleted") in t for t, how, s in tr)
+    tr, _ = traces_of(ht, HookTaskSpec(m, SRV, "ConnectionHandler", ht, no_inline=("handle_hook", "server_event")))
+    ctx.paths += len(tr)
+    ok = all(("done",) not in t or (("hh",) in t and t.index(("hh",)) < t.index(("done",))) for t, how, s in tr)
+    ok = ok and any(("done",) in t for t, how, s in tr)
     ctx.check(ok, "R11.1", (SRV, "ConnectionHandler.hook_task", ht), "await handle_hook; HookCompleted", "the layer is resumed before the hook (and a pending intercept) finished",
               desc="HookCompleted after handle_hook")
-    fw = ctx.func("mitmproxy/flow.py", "Flow.wait_for_resume")
-    ok = any(isinstance(n, ast.Await) and "_resume_event.wait" in norm(n) for n in walk_in_order(fw)) and any(
-        isinstance(n, ast.If) and norm(n.test) == "not self.intercepted" and isinstance(n.body[0], ast.Return) for n in walk_in_order(fw))
-    ctx.check(ok, "R11.1", ("mitmproxy/flow.py", "Flow.wait_for_resume", fw), "if not intercepted: return; await _resume_event.wait()", "an intercepted flow is not held", desc="wait_for_resume blocks while intercepted")
+    FLOW = "mitmproxy/flow.py"
+    fw = ctx.func(FLOW, "Flow.wait_for_resume")
+    tr, _ = traces_of(fw, ResumeEventSpec(m, FLOW, "Flow", fw, tracked=("self.intercepted",)), init_env={"self.intercepted": C(True)})
+    paths = returning(tr)
+    ctx.require(paths, "Flow.wait_for_resume: no returning path")
+    waited = set()
+    for t in paths:
+        stored = {e[2]: ("attr", ("self",), e[1], None) for e in t if e[0] == "store"}  # `ev = self.x = Event()`: the object is the attribute
+        waited |= {stored.get(e[1], e[1]) for e in t if e[0] == "evwait"}
+    ok = bool(waited) and all(any(e[0] == "evwait" for e in t) for t in paths)
+    ctx.check(ok, "R11.1", (FLOW, "Flow.wait_for_resume", fw), "if not intercepted: return; await _resume_event.wait()",
+              "an intercepted flow is not held: some path of wait_for_resume() returns while the flow is intercepted without awaiting the resume event", desc="wait_for_resume blocks while intercepted")
     ctx.expect_instances("R11.1", 4)
+    ev_attr = None
+    if ok:
+        ctx.require(len(waited) == 1 and next(iter(waited))[:2] == ("attr", ("self",)), f"Flow.wait_for_resume waits on {sorted(map(str, waited))}: not a single event attribute of the flow (shape not modelled)")
+        ev_attr = next(iter(waited))[2]
 
     # ---- R11.2 / R11.4 for the message layers
     layers = [
@@ -136,96 +658,50 @@ def check(ctx):
     for rel, qual, hook, sendname, label in layers:
         fn = ctx.func(rel, qual)
         where = (rel, qual, fn)
-        hook_stmts = [n for n in walk_in_order(fn) if isinstance(n, ast.Expr) and isinstance(n.value, ast.Yield) and isinstance(n.value.value, ast.Call) and last_attr(n.value.value.func) == hook]
-        ctx.require(len(hook_stmts) == 1, f"{qual}: expected exactly one {hook} yield, found {len(hook_stmts)}")
-        hs = hook_stmts[0]
-
-        def keep(e, hook=hook, sendname=sendname):
-            return (e[0] == "yield" and e[1] == hook) or (e[0] == "call" and (e[1].endswith("." + sendname) or e[1] == sendname)) or e[0] == "cond"
-
-        spec = GenericSpec(keep=keep, record_conds=True, unroll=1)
+        spec = MessageLayerSpec(m, rel, qual.split(".")[0], fn, hook)
         tr, eng = traces_of(fn, spec)
         ctx.paths += len(tr)
         n_with_hook = 0
+        n_sent = 0
         kill_checked = True
+        order_problem = None
+        payloads = {}  # line of the send -> (set of problems, some payload seen)
         for t, how, s in tr:
-            idx = [i for i, e in enumerate(t) if e == ("yield", hook)]
+            idx = [i for i, e in enumerate(t) if e[0] == "hook"]
             if not idx:
                 continue
             n_with_hook += 1
+            F = t[idx[0]][2]
+            ctx.require(F != UNKNOWN and F[0] in ("attr", "param", "new", "call", "idx", "elem"), f"{qual}: cannot identify the flow object handed to {hook}")
             after = t[idx[0] + 1 :]
-            sends_after = [e for e in after if e[0] == "call" and e[1].endswith(sendname)]
-            sends_before = [e for e in t[: idx[0]] if e[0] == "call" and e[1].endswith(sendname)]
-            if sends_before:
-                ctx.fail("R11.2", where, f"{sendname} before {hook}", "the message is sent before its hook ran (cannot be held or edited)")
-            if label in ("TCP", "UDP") and len(sends_after) != 1:
-                ctx.fail("R11.2", where, f"{len(sends_after)} sends after {hook}", "a relayed message must be forwarded exactly once after its hook")
-            if sends_after:
-                conds = [e for e in after[: after.index(sends_after[0])] if e[0] == "cond"]
-                if not any(("error" in c[1] or "live" in c[1] or "kill" in c[1].lower()) for c in conds):
-                    kill_checked = False
-        ctx.require(n_with_hook >= 1, f"{qual}: no path through {hook}")
-        # payload: re-read after the hook
-        sends = []
-        for n in walk_in_order(fn):
-            if isinstance(n, ast.Call) and last_attr(n.func) == sendname and n.lineno > hs.lineno:
-                # same branch as the hook (shares the hook's enclosing block chain)?
-                sends.append(n)
-        # restrict to sends in the block (or nested blocks) that follow the hook statement
-        par = hs._parent
-        body = None
-        for fname in ("body", "orelse", "finalbody"):
-            b = getattr(par, fname, None)
-            if isinstance(b, list) and hs in b:
-                body = b[b.index(hs) + 1 :]
-        ctx.require(body is not None, f"{qual}: cannot locate the statements after {hook}")
-        follow = [n for st in body for n in walk_in_order(st) if isinstance(n, ast.Call) and last_attr(n.func) == sendname]
-        if not follow:
-            ctx.fail("R11.2", where, f"no {sendname} after {hook}", "the message is not sent after its hook in the hook's block (sent before it, or never)")
-        params = {x.arg for x in fn.args.args}
-
-        def derive_problem(expr, depth=0):
-            """None if every value in ``expr`` is read from the flow/message object after the hook."""
-            if depth > 4:
-                return "payload derivation too deep to follow"
-            for nm in {n.id for n in _payload_names(expr)} - {"self", "flow", "bytes", "len", "str", "pack_message", "response_codes"}:
-                if nm == "event":
-                    return "payload reads the received event, not the message object the hook may have edited"
-                if nm in ("fragmentizer",):
-                    continue  # re-fragmentation helper: carries fragment lengths, the content is passed at call time
-                defs = [a_ for a_ in walk_in_order(fn) if isinstance(a_, (ast.Assign, ast.For, ast.AnnAssign))
-                        and any(isinstance(t, ast.Name) and t.id == nm for t in ast.walk(a_.targets[0] if isinstance(a_, ast.Assign) else a_.target))]
-                if not defs:
-                    if nm in params:
-                        return f"payload uses parameter `{nm}` as received, not the flow's (possibly edited) message"
-                    continue
-                after_hook = [a_ for a_ in defs if a_.lineno > hs.lineno]
-                if after_hook:
-                    for a_ in after_hook:
-                        src = a_.iter if isinstance(a_, ast.For) else a_.value
-                        if src is not None:
-                            pr = derive_problem(src, depth + 1)
-                            if pr:
-                                return pr
-                    continue
-                is_obj = all(isinstance(a_, ast.Assign) and isinstance(a_.value, ast.Call) and last_attr(a_.value.func).endswith("Message") for a_ in defs)
-                attr_read = any(isinstance(x, ast.Attribute) and isinstance(x.value, ast.Name) and x.value.id == nm for x in ast.walk(expr))
-                if not (is_obj and attr_read):
-                    return f"payload uses local `{nm}` computed before the hook"
-            return None
-
-        for snd in follow:
-            payload = snd.args[-1] if snd.args else None
-            ctx.require(payload is not None, f"{qual}: {sendname} without payload")
-            bad = derive_problem(payload)
-            ctx.check(bad is None, "R11.2", where, f"{sendname}({norm(payload)}) after {hook}", bad or "", desc=f"{label}: post-hook payload {norm(payload)}")
-        # locals assigned after the hook and used as payload must derive from flow/message
-        for st in body:
-            for a in walk_in_order(st):
-                if isinstance(a, ast.Assign) and isinstance(a.targets[0], ast.Name) and a.targets[0].id == "packed":
-                    srcs = {attr_chain(x) for x in ast.walk(a.value) if isinstance(x, ast.Attribute)}
-                    ctx.check(any(s.startswith("flow.request") or s.startswith("flow.response") or s == "servfail" for s in srcs) or "servfail" in norm(a.value), "R11.2", where, norm(a),
-                              "the packed DNS message is not built from the flow's (possibly edited) message", desc=f"{label}: packed from flow")
+            sends_after = [e for e in after if e[0] == "send"]
+            if any(e[0] == "send" for e in t[: idx[0]]):
+                order_problem = (f"{sendname} before {hook}", "the message is sent before its hook ran (cannot be held or edited)")
+            if label in ("TCP", "UDP") and len(sends_after) != 1 and how == "return":
+                order_problem = order_problem or (f"{len(sends_after)} sends after {hook}", "a relayed message must be forwarded exactly once after its hook")
+            if not sends_after:
+                continue
+            n_sent += 1
+            if not any(e[0] == "kread" for e in after[: after.index(sends_after[0])]):
+                kill_checked = False
+            attached = attached_objects(t, F)
+            for e in sends_after:
+                tags = provenance(e[2], F, attached)
+                probs = payloads.setdefault(e[1], set())
+                if "raw" in tags:
+                    probs.add("payload uses data as it was received (a parameter / the event / an object the hook never saw), not the flow's (possibly edited) message")
+                if "pre" in tags:
+                    probs.add("payload was read from the flow / message object before the hook ran, so edits made by the hook are not forwarded")
+                if "post" not in tags and not probs:
+                    probs.add("payload is not read from the flow / message object after the hook (computed before the hook or never derived from the message)")
+        ctx.require(n_with_hook >= 1, f"{qual}: no path through {hook} (hook moved out of reach of this entry point)")
+        if order_problem:
+            ctx.fail("R11.2", where, *order_problem)
+        elif not n_sent:
+            ctx.fail("R11.2", where, f"no {sendname} after {hook}", "the message is not sent after its hook (sent before it, or never)")
+        for line in sorted(payloads):
+            probs = payloads[line]
+            ctx.check(not probs, "R11.2", (rel, qual, line), f"{sendname} payload after {hook}", "; ".join(sorted(probs)), desc=f"{label}: post-hook payload of the send at line {line} is re-read from the flow")
         ctx.check(kill_checked, "R11.4", where, f"{hook} -> {sendname}", f"{label}: no test of flow.error / flow.live between the hook and the send, so flow.kill() during the hook is ignored and the message is forwarded",
                   desc=f"{label}: kill marker consulted")
         if not kill_checked:
@@ -238,30 +714,28 @@ def check(ctx):
     # looking at the kill marker.  For those layers "killed flows are never forwarded" holds today only because Flow.kill() leaves
     # the pending hook of an intercepted flow blocked (it clears `intercepted` but never sets the resume event).  If kill() starts
     # to complete the hook (calls resume() / sets the event), the held message of every such layer is forwarded on kill.
-    FLOW = "mitmproxy/flow.py"
+    # Scenario for both functions: the flow is intercepted and somebody waits on the resume event (it exists).
     kill = ctx.func(FLOW, "Flow.kill")
+    resume = ctx.func(FLOW, "Flow.resume")
+    if ev_attr is not None:
+        EVENT = ("nn", "resume-event")
+        scen = {"self.intercepted": C(True), f"self.{ev_attr}": EVENT}
 
-    def releases(fn, seen):
-        for c in calls_in(fn):
-            name = call_name(c)
-            if name.endswith("_resume_event.set"):
-                return c
-            if name.startswith("self.") and name.count(".") == 1 and m.has(FLOW, "Flow." + name[5:]) and name[5:] not in seen:
-                seen.add(name[5:])
-                d = m.func(FLOW, "Flow." + name[5:])
-                if isinstance(d, (ast.FunctionDef, ast.AsyncFunctionDef)):
-                    r = releases(d, seen)
-                    if r is not None:
-                        return c
-        return None
+        def releasing(fn):
+            tr, _ = traces_of(fn, ResumeEventSpec(m, FLOW, "Flow", fn, tracked=tuple(scen)), init_env=dict(scen))
+            paths = returning(tr)
+            return paths, [t for t in paths if ("evset", EVENT) in t]
 
-    ctx.require(releases(ctx.func(FLOW, "Flow.resume"), {"resume"}) is not None, "Flow.resume no longer sets the resume event (R11.5 premise changed)")
-    rel = releases(kill, {"kill"})
-    ctx.check(rel is None or not unchecked_layers, "R11.5", (FLOW, "Flow.kill", rel if rel is not None else kill), "Flow.kill completes a pending (intercepted) hook",
-              f"Flow.kill() releases the hook an intercepted flow is held in (`{norm(rel) if rel is not None else ''}`), but {', '.join(unchecked_layers)} forward the held message as soon as their hook "
-              "completes without consulting the kill marker: killing an intercepted message sends it to its destination",
-              desc=f"Flow.kill leaves a held hook blocked (layers without kill check: {len(unchecked_layers)})")
-    ctx.expect_instances("R11.5", 1)
+        paths, rel_paths = releasing(resume)
+        ctx.require(paths, "Flow.resume: no returning path")
+        ctx.check(len(rel_paths) == len(paths), "R11.5", (FLOW, "Flow.resume", resume), "Flow.resume sets the resume event",
+                  "resume() of an intercepted flow does not (on every path) set the event wait_for_resume() is blocked on: the held message is never forwarded", desc="Flow.resume releases the held hook")
+        paths, rel_paths = releasing(kill)
+        ctx.check(not rel_paths or not unchecked_layers, "R11.5", (FLOW, "Flow.kill", kill), "Flow.kill completes a pending (intercepted) hook",
+                  f"Flow.kill() releases the hook an intercepted flow is held in (it sets the resume event `{ev_attr}`, directly or through a helper), but {', '.join(unchecked_layers)} forward the held message as soon as their hook "
+                  "completes without consulting the kill marker: killing an intercepted message sends it to its destination",
+                  desc=f"Flow.kill leaves a held hook blocked (layers without kill check: {len(unchecked_layers)})")
+        ctx.expect_instances("R11.5", 2)
 
     # ---- R11.3 HTTP
     spec = HttpStreamSpec(m)
@@ -326,5 +800,12 @@ MUTANTS = [
            "        yield HttpResponseHook(self.flow)\n        self.server_state = self.state_done\n        if not already_streamed:\n            content = self.flow.response.raw_content\n            done_after_headers = not (content or self.flow.response.trailers)\n            yield SendHttp(\n                ResponseHeaders(self.stream_id, self.flow.response, done_after_headers),\n                self.context.client,\n            )\n        if (yield from self.check_killed(False)):\n            return\n\n        if not already_streamed:\n", "R11.3"),
     Mutant("killed-still-forwards-to-server", I, "            self.flow.live = False\n            self.client_state = self.server_state = self.state_errored\n            return True\n        return False\n\n    def handle_protocol_error(",
            "            self.flow.live = False\n            self.client_state = self.state_errored\n            return True\n        return False\n\n    def handle_protocol_error(", "R11.3"),
+    Mutant("resume-forgets-event", "mitmproxy/flow.py", "            self._resume_event.set()\n", "            pass\n", "R11.5"),
+    Mutant("handle-hook-extra-condition", MS, "            if isinstance(data, flow.Flow):\n", "            if isinstance(data, flow.Flow) and data.live:\n", "R11.1"),
+    Mutant("hookcompleted-built-and-sent-early", SRV, "        await self.handle_hook(hook)\n        if hook.blocking:\n            await self.server_event(events.HookCompleted(hook))\n",
+           "        completed = events.HookCompleted(hook)\n        if hook.blocking:\n            await self.server_event(completed)\n        await self.handle_hook(hook)\n", "R11.1"),
+    Mutant("tcp-payload-read-before-hook", TCP, "                yield TcpMessageHook(self.flow)\n                yield commands.SendData(send_to, tcp_message.content)\n",
+           "                payload = tcp_message.content\n                yield TcpMessageHook(self.flow)\n                yield commands.SendData(send_to, payload)\n", "R11.2"),
+    Mutant("udp-message-never-shown-to-hook", UDP, "                self.flow.messages.append(udp_message)\n", "", "R11.2"),
     Mutant("dns-request-ignores-kill", DNS, "        elif flow.error:\n            yield from self.handle_error(flow, flow.error.msg)\n        elif not self.context.server.address:", "        elif not self.context.server.address:", "R11.4"),
 ]
